@@ -50,4 +50,16 @@ TIES = {
     "Globals": dict(
         doc="Package-level variables of package rscp and the (empty) list of functions writing them.",
         lists=["rscpGlobals", "rscpGlobalWrites"]),
+    "JsonOut": dict(
+        doc="The output formats of the e3dc command as Model/JsonOut.lean follows them.",
+        shapes=["e3dc_NewJSONMergedMessages", "e3dc_NewJSONSimpleMessage", "e3dc_NewJSONSimpleMessages", "e3dc_JSONMessage_MarshalJSON",
+                "e3dc_run", "rscp_Tag_MarshalJSON", "rscp_RscpError_MarshalJSON", "rscp_RscpError_String", "rscp_DataType_MarshalJSON"]),
+    "JsonIn": dict(
+        doc="The request notations of the e3dc command as Model/JsonIn.lean follows them.",
+        shapes=["e3dc_unmarshalJSONRequests", "e3dc_unmarshalJSONRequest", "e3dc_unmarshalJSONValue", "e3dc_isJSONEmpty", "e3dc_isJSONArray",
+                "e3dc_isJSONString", "e3dc_isJSONNumber", "e3dc_isJSONDataType", "rscp_Message_UnmarshalJSON", "rscp_Message_UnmarshalJSONValue",
+                "rscp_DataType_newNumber", "rscp_DataType_new", "rscp_Tag_UnmarshalJSON", "rscp_DataType_UnmarshalJSON", "rscp_Message_validate"]),
+    "Cli": dict(
+        doc="main/run/flag handling of the e3dc command as Model/Cli.lean follows them.",
+        shapes=["e3dc_main", "e3dc_run", "e3dc_parseFlags", "e3dc_checkFlags", "e3dc_printUsage", "e3dc_printVersion"]),
 }
